@@ -130,13 +130,15 @@ CHECKS = {
         "assumptions": COMMON_ASSUMPTIONS + ["per-level tokens never spell an alias of a direct subcommand (precondition of the property; aliases use a reserved shape)"],
     },
     "C07": {
-        "tests": [{"name": "TestC07", "quick": 64000, "thorough": 1600000}],
-        "rule": "tree generator of C04 x the three error policies (set on the app before any command is declared) x rejection kinds: spec mismatch at a random level (token mutation), unknown subcommand / undeclared option "
+        "tests": [{"name": "TestC07", "quick": 64000, "thorough": 1600000},
+                  {"name": "TestC07Values", "quick": 64000, "thorough": 1600000}],
+        "rule": "tree generator of C04 x the three error policies (set on the app before any command is declared; in addition ~1/3 of the sub commands on the path assign their own policy at the start of their initializer, which their descendants inherit) x rejection kinds: spec mismatch at a random level (token mutation), unknown subcommand / undeclared option "
                 "words, a token no value type can convert (every container is a recorder failing on one reserved token); oracle: the first level the reference semantics rejects is the rejecting command; "
                 "no hook log entry; error stream contains the error text and 'Usage: <path of the rejecting command>'; ContinueOnError -> returned error, no exit; ExitOnError -> exit stub called once with 2; "
                 "PanicOnError -> Run panics with an error whose text is in the stream; the stream is identical to the one under ContinueOnError; accepted invocations return nil, no exit, no panic. "
+                "TestC07Values repeats the policy oracle on single-command apps whose containers are the BUILT-IN typed values (C06 generator, tokens that strconv rejects in any position, also before a valid occurrence of the same option). "
                 "non-trivial = rejection at depth >= 1 or conversion failure; distinct by (argv, policy)",
-        "required_classes": {"kind:reject": 0.3, "reject:conversion": 0.02, "kind:accept": 0.05},
+        "required_classes": {"kind:reject": 0.15, "reject:conversion": 0.01, "kind:accept": 0.02, "typed:conversion-failure-follows-policy": 0.05, "typed:unconvertible-value-before-a-valid-one": 0.01, "reject:under-a-policy-set-on-a-subcommand": 0.005},
         "assumptions": COMMON_ASSUMPTIONS + ["message wording is not compared, only its presence in the stream"],
     },
     "C14": {
@@ -180,8 +182,8 @@ CHECKS = {
         "rule": "cases = declaration sets (0-4 options with 1-3 names each, possibly env-backed; 0-3 arguments) declared in a random interleaved call order, and C01-style argvs (sentences, token mutations, soup); "
                 "oracle: differential between two real apps built from the same declarations - Spec empty versus the explicit string '[OPTIONS] ARG1 ARG2 ...' assembled from the statement "
                 "('[OPTIONS]' omitted without options, arguments in declaration order): identical acceptance, identical bound values, identical whitespace-normalised usage line which must equal "
-                "'Usage: app <that spec>'; plus the reference-model verdict for the explicit spec. non-trivial = >= 1 option, >= 2 arguments and a non-empty argv; distinct by (declarations, order, argv)",
-        "required_classes": {"verdict:accept": 0.2, "verdict:reject": 0.1, "decls:no-option": 0.03, "decls:option-declared-after-argument": 0.1},
+                "'Usage: app <that spec>'; plus the reference-model verdict for the explicit spec; in a third of the cases a SECOND command line is given to the same application object of each variant (same outcome and usage line required again). non-trivial = >= 1 option, >= 2 arguments and a non-empty argv; distinct by (declarations, order, argv)",
+        "required_classes": {"verdict:accept": 0.2, "verdict:reject": 0.1, "decls:no-option": 0.03, "decls:option-declared-after-argument": 0.1, "sequence:two-runs-on-one-app": 0.1},
         "assumptions": COMMON_ASSUMPTIONS,
     },
     "C17": {
